@@ -1,5 +1,6 @@
 import AgModel.Gen.Consts
-import AgModel.Model.PoolFinality
+import AgModel.Model.Finality
+import AgModel.Model.ParentReady
 /-!
 Executable model of `src/consensus/pool/slot_state.rs` and of the vote / certificate / block paths of
 `src/consensus/pool.rs` (`PoolImpl::{add_vote, add_cert, add_block, add_valid_cert, prune,
@@ -9,9 +10,9 @@ recover_from_standstill}`), following the statement order of the Rust code (as r
 * validators are indices `0..n`, stakes a `List Nat`, block hashes interned `Nat` ids;
 * a certificate is `(kind, slot, hash, signers of the first aggregate, signers of the second
   aggregate, declared stake)`; signatures are symbolic (C09 owns their validation);
-* the parent-ready tracker is *not* part of this model (C07): its `ParentReady` events are not
-  among the outputs; the finality tracker is (`Model/PoolFinality.lean`) because it decides the
-  slot bounds and pruning.
+* the finality tracker (`Model/Finality.lean`, C08) and the parent-ready tracker
+  (`Model/ParentReady.lean`, C07) are components of the pool exactly as in `PoolImpl`: the first
+  decides the slot bounds and pruning, the second produces the `ParentReady` events.
 -/
 namespace AgModel.Pool
 open AgModel
@@ -78,6 +79,7 @@ inductive Event where
   | s2n (slot hash : Nat)
   | s2s (slot : Nat)
   | repair (slot hash : Nat)
+  | parentReady (slot pslot phash : Nat)
   | standstill (slot : Nat) (certs : List Cert) (votes : List Vote)
   | panic
 deriving DecidableEq, Repr, Inhabited
@@ -300,8 +302,10 @@ structure Pool where
   epoch : Epoch
   slots : List SlotState := []                          -- `slot_states` (keyed by slot)
   waiting : List ((Nat × Nat) × List (Nat × Nat)) := [] -- `s2n_waiting_parent_cert`: parent ↦ children
-  fin : PoolFin.Tracker := {}
-deriving Repr, Inhabited
+  fin : Finality.Tracker := Finality.init
+  pr : ParentReady.Tracker := ParentReady.init
+  /-- wake-ups of `wait_for_parent_ready` receivers produced so far (observable through the receivers) -/
+  wakes : List ParentReady.Wake := []
 
 def Pool.getSlot (p : Pool) (s : Nat) : Option SlotState := p.slots.find? (·.slot == s)
 
@@ -315,23 +319,38 @@ def Pool.putSlot (p : Pool) (st : SlotState) : Pool :=
   if p.slots.any (·.slot == st.slot) then { p with slots := p.slots.map (fun x => if x.slot == st.slot then st else x) }
   else { p with slots := p.slots ++ [st] }
 
-def Pool.prune (p : Pool) : Pool := { p with slots := p.slots.filter (·.slot ≥ p.fin.firstUnpruned) }
+/-- `PoolImpl::prune`: per-slot states, parent-ready tracker, waiting children below the watermark. -/
+def Pool.prune (p : Pool) : Pool :=
+  { p with slots := p.slots.filter (·.slot ≥ p.fin.first),
+           pr := ParentReady.prune p.pr p.fin.first,
+           waiting := (p.waiting.map (fun w => (w.1, w.2.filter (·.1 ≥ p.fin.first)))).filter (fun w => !w.2.isEmpty) }
 
 def Pool.outOfBounds (p : Pool) (slot : Nat) : Bool :=
-  slot < p.fin.firstUnpruned || slot ≥ p.fin.highestFinalized + 2 * Gen.SLOTS_PER_EPOCH
+  slot < p.fin.first || slot ≥ p.fin.highest + 2 * Gen.SLOTS_PER_EPOCH
 
-/-- `handle_finalization`: (parent-ready tracker not modelled) then `prune`. A `none` tracker
-    result is a "consensus safety violation" panic. -/
-def Pool.handleFin (p : Pool) (r : Option (PoolFin.Tracker × PoolFin.FinEvent)) : Pool × List Event :=
+def prEvents (anns : List (Nat × (Nat × Nat))) : List Event := anns.map (fun a => Event.parentReady a.1 a.2.1 a.2.2)
+
+/-- apply a result of the parent-ready tracker (`none` = its `add_to_ready` assertion failed) -/
+def Pool.applyPr (p : Pool) (r : ParentReady.Res) : Pool × List Event :=
   match r with
   | none => (p, [.panic])
-  | some (t, _) => (({ p with fin := t }).prune, [])
+  | some (pr, anns, wk) => ({ p with pr := pr, wakes := p.wakes ++ wk }, prEvents anns)
 
-/-- notify the children waiting for a certificate of `parent` (`s2n_waiting_parent_cert.remove`). -/
+/-- `handle_finalization`: parent-ready tracker, `ParentReady` events, then `prune`. A `.panic`
+    tracker result is a "consensus safety violation" assertion. -/
+def Pool.handleFin (p : Pool) (r : Finality.Res) : Pool × List Event :=
+  match r with
+  | .panic => (p, [.panic])
+  | .ok t ev =>
+    let p := { p with fin := t }
+    let (p, evs) := p.applyPr (ParentReady.handleFinalization p.pr ev)
+    (p.prune, evs)
+
+/-- notify the children waiting for a certificate of `parent` (`notify_waiting_children`). -/
 def Pool.notifyChildren (p : Pool) : List (Nat × Nat) → List Event → Pool × List Event
   | [], acc => (p, acc)
   | (cs, ch) :: rest, acc =>
-    if cs < p.fin.firstUnpruned then Pool.notifyChildren p rest acc
+    if cs < p.fin.first then Pool.notifyChildren p rest acc
     else
     let (p, st) := p.slotState cs
     match st.notifyParentCertified p.epoch ch with
@@ -352,15 +371,16 @@ def Pool.addValidCert (p : Pool) (c : Cert) : Pool × List Event :=
     match c.kind with
     | .notar | .nf =>
       let (p, e1) : Pool × List Event :=
-        if c.kind == CertKind.notar then p.handleFin (PoolFin.markNotarized p.fin (c.slot, c.hash)) else (p, [])
+        if c.kind == CertKind.notar then p.handleFin (Finality.markNotarized p.fin (c.slot, c.hash)) else (p, [])
       let (p, e2) := p.notifyWaiting (c.slot, c.hash)
-      (p, e1 ++ e2 ++ [Event.repair c.slot c.hash])
-    | .skip => (p, [])
+      let (p, e3) := p.applyPr (ParentReady.markNotarFallback p.pr (c.slot, c.hash))
+      (p, e1 ++ e2 ++ e3 ++ [Event.repair c.slot c.hash])
+    | .skip => p.applyPr (ParentReady.markSkipped p.pr c.slot)
     | .ff =>
-      let (p, e1) := p.handleFin (PoolFin.markFastFinalized p.fin (c.slot, c.hash))
+      let (p, e1) := p.handleFin (Finality.markFastFinalized p.fin (c.slot, c.hash))
       let (p, e2) := p.notifyWaiting (c.slot, c.hash)
       (p, e1 ++ e2)
-    | .final => p.handleFin (PoolFin.markFinalized p.fin c.slot)
+    | .final => p.handleFin (Finality.markFinalized p.fin c.slot)
   (p, evs ++ [Event.cert c])
 
 def Pool.addValidCerts (p : Pool) : List Cert → List Event → Pool × List Event
@@ -410,11 +430,16 @@ def Pool.addWaiting (p : Pool) (par b : Nat × Nat) : Pool :=
 def Pool.addBlock (p : Pool) (b par : Nat × Nat) : Pool × List Event :=
   if ¬ (b.1 > par.1) then (p, [.panic])
   else
-    match PoolFin.addParent p.fin b par with
-    | none => (p, [.panic])
-    | some (t, _) =>
-      -- NOTE: no `prune()` here in the Rust code
+    match Finality.addParent p.fin b par with
+    | .panic => (p, [.panic])
+    | .ok t ev =>
+      -- parent-ready tracker, events, `prune()` (the new link may have finalized ancestors)
       let p := { p with fin := t }
+      let (p, e0) := p.applyPr (ParentReady.handleFinalization p.pr ev)
+      let p := p.prune
+      -- blocks of already decided (pruned) slots need no further tracking
+      if b.1 < p.fin.first then (p, e0)
+      else
       let (p, st) := p.slotState b.1
       let p := p.putSlot (st.notifyParentKnown b.2)
       let certified := match p.getSlot par.1 with
@@ -423,11 +448,11 @@ def Pool.addBlock (p : Pool) (b par : Nat × Nat) : Pool × List Event :=
       if certified then
         let (p, st) := p.slotState b.1
         match st.notifyParentCertified p.epoch b.2 with
-        | none => (p, [.panic])
+        | none => (p, e0 ++ [.panic])
         | some (st, evs) =>
           let p := p.putSlot st
-          if evs.isEmpty then (Pool.addWaiting p par b, []) else (p, evs)
-      else (Pool.addWaiting p par b, [])
+          if evs.isEmpty then (Pool.addWaiting p par b, e0) else (p, e0 ++ evs)
+      else (Pool.addWaiting p par b, e0)
 
 /-! ### standstill recovery -/
 
@@ -460,7 +485,7 @@ def SlotState.ownVotes (e : Epoch) (st : SlotState) : List Vote :=
 
 /-- `recover_from_standstill` (repaired: no panic when nothing beyond genesis is finalized). -/
 def Pool.recover (p : Pool) : List Event :=
-  let slot := p.fin.highestFinalized
+  let slot := p.fin.highest
   let later := sortSlots (p.slots.filter (·.slot > slot))
   let certs := p.getFinalCerts slot ++ later.flatMap SlotState.certs
   let votes := later.flatMap (SlotState.ownVotes p.epoch)
